@@ -1,4 +1,4 @@
-"""Markdown tables of the seeded changes (rounds 2 to 8) from seeded/*/meta.json:  harness/seed_report.py > table.md"""
+"""Markdown tables of the seeded changes (rounds 2 to 9) from seeded/*/meta.json:  harness/seed_report.py > table.md"""
 import json
 import sys
 from pathlib import Path
@@ -19,7 +19,7 @@ def row(sid, m):
 
 
 def main():
-    for rnd, sufs in ((2, "cd"), (3, "ef"), (4, "gh"), (5, "ij"), (6, "kl"), (7, "mn"), (8, "op")):
+    for rnd, sufs in ((2, "cd"), (3, "ef"), (4, "gh"), (5, "ij"), (6, "kl"), (7, "mn"), (8, "op"), (9, "q")):
         print(f"\n**Round {rnd}**\n")
         print("| id | change | needs, to manifest | caught by (quick tier, applied to /repo) | strengthening after the first evaluation |")
         print("|---|---|---|---|---|")
